@@ -132,7 +132,7 @@ def conf_full(seed, knobs=None):
                 d = {"op": "extkill", "sel": [w, rng.randint(0, 3)]}
             s.append(d)
         elif r < 0.6 + k["fork"] * 0.3:
-            s.append({"op": "fork", "sel": [w, rng.randint(0, 3)], "obeys": rng.random() < 0.7})
+            s.append({"op": "fork", "sel": [w, rng.randint(0, 3)], "obeys": rng.random() < 0.7, "deep": rng.random() < 0.3})
         elif r < 0.7 and rng.random() < k["faults"]:
             s.append({"op": "spawnfault", "kinds": [rng.choice(["OSError", "ValueError", None])
                                                      for _ in range(rng.randint(1, 3))]})
@@ -154,7 +154,8 @@ ALLCMDS = ["incr", "decr", "set_np", "restart", "reload", "kill", "signal", "sto
 PROFILES.update({
     "count": {"singleton": True, "cmds": ["incr", "decr", "set_np", "set_multi", "set_multi", "restart", "reload", "kill"], "steps": 30},
     "stop": {"cmds": ["stop", "stop", "rm", "kill", "restart", "start", "incr", "decr", "set_np", "set_opt", "set_opt", "status"], "stubborn": 0.5,
-             "kcall_deaths": 0.6, "hooks": ["after_spawn", "before_stop", "after_stop"], "norespawn": True},
+             "kcall_deaths": 0.6, "hooks": ["after_spawn", "before_stop", "after_stop"], "norespawn": True,
+             "stop_children": True, "fork": 0.35},
     "term": {"max_age": 0.3, "killover": 0.6, "Gs": [0.0, 0.2, 0.3, 0.5, 0.8], "stop_children": True, "stop_signal": True, "fork": 0.15, "stubborn": 0.5,
              "cmds": ["stop", "kill", "decr", "restart", "reload", "signal"], "instant": 0.2},
     "acct": {"watchers": 3, "badnb": 0.05, "hooks": ["before_spawn", "after_spawn", "before_start", "after_start", "before_reap", "after_reap"], "faults": 0.3,
